@@ -94,7 +94,29 @@ def diff_summary(builder, a, b, opt):
     return int(e.bounds().upper_bound), h(loose_script(e))
 
 
+def mixed_cases(tier):
+    """Mappings whose keys mix ints and strings (YAML, pickle, Python API): LeafNode ordering is not transitive there."""
+    ka = (9, 10, '1a')
+    kb = (9, 10, '1a', '1b')
+    va = ('x', 'bbbb')
+    vb = ('x', 'aaaa', 'bbbb')
+    As = [list(zip(ka, vs)) for vs in itertools.product(va, repeat=3)]
+    Bs = []
+    for vs in itertools.product(vb, repeat=3):
+        for last in (None,) + vb[1:]:
+            items = list(zip(kb[:3], vs)) + ([(kb[3], last)] if last is not None else [])
+            Bs.append(items)
+    if tier == 'quick':
+        As, Bs = As[::2] + [As[-1]], Bs[::3]
+    for a in As:
+        for b in Bs:
+            for ds in ('auto', 'match'):
+                yield {'mixed': True, 'a': [list(p) for p in a], 'b': [list(p) for p in b], 'ds': ds}
+
+
 def evaluate(case):
+    if case.get('mixed'):
+        case = dict(case, a={k: v for k, v in case['a']}, b={k: v for k, v in case['b']})
     a, b, ds = case['a'], case['b'], case['ds']
     opt = [ds, 'on']
     tag = f'dict={ds}'
@@ -143,6 +165,9 @@ def cases(tier):
             for ds in DICT_STRATEGIES:
                 yield idx, {'a': a, 'b': b, 'ds': ds}
                 idx += 1
+    for c in mixed_cases(tier):
+        yield idx, c
+        idx += 1
 
 
 # ---- list clause ---------------------------------------------------------------------------------------------------
